@@ -131,9 +131,13 @@ def step (st : State) (line : String) : State × String :=
         let it (s : St) : St := ActixNet.Srv.run cfg s [Op.poll ((readyListeners s).map Ev.listener ++ [.waker]) []]
         let conns : List Op := (List.range n).map fun l => Op.env (.connect l)
         let s1 := it (ActixNet.Srv.run cfg (ActixNet.Srv.init cfg kinds) conns)
-        let s2 := it (ActixNet.Srv.run cfg (it (ActixNet.Srv.run cfg s1 [Op.env (.cmd .pause)])) conns)
-        let s3 := it (it (ActixNet.Srv.run cfg s2 [Op.env (.cmd .resume)]))
-        (st, s!"during={s2.dispatched.length - s1.dispatched.length} after={s3.dispatched.length - s2.dispatched.length}")
+        let cyc (s : St) : St × Nat × Nat :=
+          let a := it (ActixNet.Srv.run cfg (it (ActixNet.Srv.run cfg s [Op.env (.cmd .pause)])) conns)
+          let b := it (it (ActixNet.Srv.run cfg a [Op.env (.cmd .resume)]))
+          (b, a.dispatched.length - s.dispatched.length, b.dispatched.length - a.dispatched.length)
+        let c1 := cyc s1
+        let c2 := cyc c1.1
+        (st, s!"during={c1.2.1 + c2.2.1} after={c1.2.2 + c2.2.2}")
       else (st, "bad-op")
     | _, _ => (st, "bad-op")
   | "bld" :: _ =>
@@ -143,12 +147,17 @@ def step (st : State) (line : String) : State × String :=
     | some w, some l, some n, some calls =>
       let cs := calls.splitOn ","
       let okCall (c : String) : Bool :=
-        c == "limit" || c == "workers" ||
+        c == "limit" || c == "workers" || c == "listen" ||
         (match c.splitOn ":" with
          | ["blocking", k] | ["backlog", k] | ["timeout", k] => (k.toNat?.map (fun k => decide (1 ≤ k ∧ k ≤ 4096))).getD false
          | _ => false)
       let killOk : Bool := match kv ws "kill" with | none => true | some k => k == "0" || k == "1"
-      if killOk = true ∧ 1 ≤ w ∧ w ≤ 8 ∧ 1 ≤ l ∧ l ≤ 16 ∧ w * l ≤ n ∧ n ≤ 64 ∧ cs.all okCall ∧
+      -- `rel=k`: k held connections end one at a time at the plateau; every freed slot is refilled on the worker
+      -- that freed it (C02 `within_limit` for the longer history), so the prediction is unchanged
+      let relOk : Bool := match kv ws "rel" with
+        | none => true
+        | some k => (k.toNat?.map (fun k => decide (k ≤ 8))).getD false && !k.startsWith "+"
+      if relOk = true ∧ (cs.filter (· == "listen")).length ≤ 3 ∧ killOk = true ∧ 1 ≤ w ∧ w ≤ 8 ∧ 1 ≤ l ∧ l ≤ 16 ∧ w * l ≤ n ∧ n ≤ 64 ∧ cs.all okCall ∧
           (cs.filter (· == "limit")).length = 1 ∧ (cs.filter (· == "workers")).length = 1 then
         let cfg : Cfg := { limit := l, nIdx := w }
         let ops : List Op := (List.replicate n (Op.env (.connect 0))) ++ [Op.poll [.listener 0, .waker] []]
